@@ -96,6 +96,8 @@ def expr(v):
         return f"EvilEq({v[1]})"
     if t == "unorderable":
         return f"Unorderable({v[1]})"
+    if t == "np":
+        return f"NP({v[1]!r})"
     raise ValueError(v)
 
 
